@@ -138,6 +138,9 @@ func c11(tier string) []*explore.Scenario {
 		out = append(out, explore.Sharded(c11TwoAbandoned(0, 3, 2), 8)...)
 	}
 	out = append(out, c11AbandonedWithReportingStats(4, 64, 1), c11AbandonedWithReportingStats(8, 64, 0), c11AbandonedWithReportingStats(3, 0, 1))
+	// repeated / late stream operations an application may make (CloseSend again, SendMsg after CloseSend, early Trailer()),
+	// then the caller gives up: every operation returns and the connection is usable
+	out = append(out, pickScenarios(apiSeqs("C11", tier), "/repeated-ops")...)
 	out = append(out, opInWriteAll("C11", 1)...)
 	// finer granularity (a scheduling point after every Unlock as well) on the small core scenarios
 	out = append(out, fineGrained(c11One(abandon{"handler-returns", 2, 0, false, false, false}, 64, 0, 1), c11One(abandon{"caller-cancels", 2, 1, false, false, false}, 64, 0, 1))...)
